@@ -122,8 +122,14 @@ static std::string run_case(const J &c, std::string &sig) {
         IntPolynomial *msg = new_IntPolynomial(N), *dec = new_IntPolynomial(N);
         seed_lib(seed);
         tGswKeyGen(K);
-        // decryption multiplies the row noise by the digits of 1/Msize (at most Bg/2 each): 10-sigma maximum
-        const double amax = 1.0 / (20.0 * M * (G->Bg / 2.0) * std::sqrt((double)l));
+        // decryption forms sum_i d_i * phase(row_i) with d = balanced gadget digits of 1/Msize, so the row noise is multiplied by |d|_2:
+        // the decryptable maximum (10 sigma) is 1/(20 Msize |d|_2) -- e.g. |d|_2 = 1 for Msize = Bg, Bg/2 for Msize = 2
+        double dnorm2 = 0;
+        {
+            uint32_t x = (uint32_t)(4294967296.0 / M), t = x + (uint32_t)G->offset;
+            for (int p = 0; p < l; p++) { int32_t dg = (int32_t)((t >> (32 - (p + 1) * Bgbit)) & (uint32_t)(G->Bg - 1)) - G->Bg / 2; dnorm2 += (double)dg * dg; }
+        }
+        const double amax = 1.0 / (20.0 * M * std::sqrt(std::max(dnorm2, 1.0)));
         const double alpha = alpha_of(acls, amax);
         SplitMix r(seed ^ 0x9999);
         std::vector<int64_t> msgs = c["msgs"].ivec();
